@@ -625,3 +625,63 @@ impl Read for FrameDecoder {
         }
     }
 }
+
+/// Read-only state dump for the verification harness (C07): everything a later operation can
+/// observe, rendered as text.  Formatting only, no codec logic.
+#[cfg(feature = "verif_hooks")]
+impl FrameDecoder {
+    pub fn verif_state_dump(&self) -> alloc::string::String {
+        use alloc::format;
+        use alloc::string::String;
+        let mut s = String::new();
+        s.push_str(&format!(
+            "max_window={} dicts={:?} ",
+            self.max_window_size,
+            self.dicts.keys().collect::<Vec<_>>()
+        ));
+        let st = match &self.state {
+            None => {
+                s.push_str("state=none");
+                return s;
+            }
+            Some(st) => st,
+        };
+        let sc = &st.decoder_scratch;
+        let (a, b) = (sc.buffer.len(), sc.buffer.dict_content.len());
+        s.push_str(&format!(
+            "finished={} blocks={} read={} checksum={:?} using_dict={:?} window={} buf_len={} dict_len={} hist={:?} ",
+            st.frame_finished, st.block_counter, st.bytes_read_counter, st.check_sum, st.using_dict,
+            sc.buffer.window_size, a, b, sc.offset_hist
+        ));
+        let fse = |t: &crate::fse::FSETable| {
+            format!(
+                "(al={} n={} probs={:?} dec={:?})",
+                t.accuracy_log,
+                t.decode.len(),
+                t.symbol_probabilities,
+                t.decode
+                    .iter()
+                    .map(|e| (e.symbol, e.num_bits, e.base_line))
+                    .collect::<Vec<_>>()
+            )
+        };
+        s.push_str(&format!(
+            "ll={} ll_rle={:?} ml={} ml_rle={:?} of={} of_rle={:?} ",
+            fse(&sc.fse.literal_lengths),
+            sc.fse.ll_rle,
+            fse(&sc.fse.match_lengths),
+            sc.fse.ml_rle,
+            fse(&sc.fse.offsets),
+            sc.fse.of_rle
+        ));
+        s.push_str(&format!(
+            "huf=(max_bits={} dec={:?}) lit_buf={} seqs={} block_buf={}",
+            sc.huf.table.max_num_bits,
+            sc.huf.table.verif_decode(),
+            sc.literals_buffer.len(),
+            sc.sequences.len(),
+            sc.block_content_buffer.len()
+        ));
+        s
+    }
+}
